@@ -296,7 +296,8 @@ func init() {
 				prior = append(prior, engine.Op{Kind: "commit"})
 				re.MaxSize = []uint64{0, 0, 256 * 1024, 1 << 20}[hr.Intn(4)]
 				re.Flags = uint64(txfile.FlagUpdMaxSize)
-				if re.MaxSize == 0 {
+				if re.MaxSize == 0 && hr.Intn(2) == 0 {
+					// (a maximum size of 0 with FlagUpdMaxSize alone removes the limit as well)
 					re.Flags |= uint64(txfile.FlagUnboundMaxSize)
 				}
 				re.Prealloc = false
